@@ -271,6 +271,8 @@ def model_build(name="main", timeout=900):
     # every .ml of the directory is compiled into the executable (cases.ml, sexp.ml, ...)
     srcs += [os.path.join(ROOT, "extract", name, f) for f in os.listdir(os.path.join(ROOT, "extract", name))
              if f.endswith(".ml") and f != "driver.ml"]
+    if name == "ddl":      # shares main's case-language reader (extract/build.sh)
+        srcs += [os.path.join(ROOT, "extract", "main", f) for f in ("cases.ml", "sexp.ml")]
     newest = max([newest] + [os.path.getmtime(s) for s in srcs])
     if not os.path.exists(exe) or os.path.getmtime(exe) < newest:
         rc, out = sh(["./build.sh", name], cwd=os.path.join(ROOT, "extract"), timeout=timeout)
@@ -480,8 +482,21 @@ def standard_flow(ctx, feat, gen_cases, oracle=None, nontrivial=None, classify=N
     try:
         ctx.harness = harness_build(feat)
         if regen:
-            with build_lock():
-                regen(ctx)
+            try:
+                with build_lock():
+                    regen(ctx)
+            except BuildError as e:
+                # the code no longer fits the shape the regenerated table can express: the theorems over that table
+                # are no longer shown to hold for the code (reported below), but the executable model built from
+                # the previous table and the property's oracle can still look for a failing input
+                if not os.path.exists(os.path.join(COQ, "Properties", "%s.v" % ctx.pid)):
+                    raise
+                ctx.log("REGENERATION FAILED:", str(e)[:500])
+                ctx.violation({"kind": "regeneration-failed", "detail": str(e)[-3000:],
+                               "theorem_or_correspondence": "regeneration of coq/Generated from /repo (the theorems "
+                                                            "over the regenerated table are not re-checked)"},
+                              no_input=True)
+                ctx.regen_failed = True
         proof_ok = ctx.coq()
         ctx.build(feat, model=True, model_name=model_name)
     except BuildError as e:
